@@ -14,7 +14,7 @@ RULE = ("poly.ring cases for every pair of lengths 0..9 (the empty polynomial an
         "pair of non-empty lengths goes to one of the two float kinds, by parity of lp+lq; thorough: all pairs for all kinds, 4 value samples); "
         "poly.calc for every length of p with 5 (Rat) / 2 (float kinds) lengths of q (all pairs in the thorough tier), "
         "derivative orders 0..len+1 (= degree+2, one beyond the quantifier); poly.access for every length 0..5 x every index 0..len+1; "
-        "poly.ctor; a family of general (inexact) f64/Complex operands for the bitwise tie (order of floating-point operations; oracle within 1e-9 of a magnitude bound); values sampled (seeded), shapes exhaustive; distinct = distinct executor line; "
+        "poly.ctor; a family of general (inexact) f64/Complex operands for the bitwise tie (order of floating-point operations; oracle within 256*2^-53 of the running error bound of each compared value); values sampled (seeded), shapes exhaustive; distinct = distinct executor line; "
         "non-trivial = both operands of degree >= 1 (ring/calc), non-empty polynomial (access)")
 TRUSTED = ["Coq 8.16.1 kernel + vm_compute (primitive floats bit-exact)", "Rust executor /verif/harness (Rat = i128 rationals; k_poly.rs uses the public Polynomial API only)",
            "python driver: generators, textbook coefficient-list reference in Fraction / Gaussian rationals (driver/polylib.py), stream comparators",
@@ -92,7 +92,7 @@ def generate(rng, tier):
         for _ in range(3):
             cases.append(mk_case(elt, "ctor", [sval(g, elt) for _ in range(4)], "ctor-" + elt))
     # general floats (not exactly representable; rounding at every step): the bitwise tie then pins the ORDER of the
-    # floating-point operations of eval / product / derivative; the oracle compares within 1e-9 * (magnitude bound)
+    # floating-point operations of eval / product / derivative; the oracle compares each value within 256*2^-53 x its running bound (class BV)
     for elt in ('f64', 'cplx'):
         g = rng.fork("general-" + elt)
         def gv():
@@ -118,16 +118,47 @@ def case_from_json(j):
     return case_from_json_common(j, ("ring", "calc", "access", "ctor"))
 
 # ------------------------------------------------------------------ oracle
-_TOL = None      # None: exact comparison; otherwise an absolute tolerance (general-float cases, see generate())
+_APPROX = False      # False: exact comparison; True: general-float case, every expected value carries a running bound
 
-def _eq(a, b):
-    if _TOL is None: return a == b
-    d = a - b
-    return mag(d) <= _TOL
+class BV:
+    """exact expected value + the value of the same expression on the absolute values of the operands (every '-'
+    read as '+'): a floating-point evaluation of the expression with N operations differs from the exact value by at
+    most gamma_N times that bound, whatever the order of the additions (Higham, Accuracy and Stability, 3.1/5.1)"""
+    __slots__ = ("v", "b")
+    def __init__(self, v, b): self.v, self.b = v, Fraction(b)
+    @staticmethod
+    def of(x):
+        if isinstance(x, BV): return x
+        if isinstance(x, CQ): return BV(x, abs(x.re) + abs(x.im))        # |zw|_1 <= |z|_1 |w|_1
+        return BV(x, abs(x))
+    def __add__(self, o): o = BV.of(o); return BV(self.v + o.v, self.b + o.b)
+    __radd__ = __add__
+    def __sub__(self, o): o = BV.of(o); return BV(self.v - o.v, self.b + o.b)
+    def __rsub__(self, o): o = BV.of(o); return BV(o.v - self.v, self.b + o.b)
+    def __mul__(self, o): o = BV.of(o); return BV(self.v * o.v, self.b * o.b)
+    __rmul__ = __mul__
+    def __neg__(self): return BV(-self.v, self.b)
+    def __eq__(self, o): return self.v == BV.of(o).v
+    def __ne__(self, o): return not self.__eq__(o)
+    def __hash__(self): return hash(self.v)
+    def __repr__(self): return repr(self.v)
+    __str__ = __repr__
 
-def _same_fn(p, q):
+GAMMA = Fraction(256, 2 ** 53)       # >= gamma_N for the at most ~60 operations behind any compared value, complex products included
+
+def _val(x): return x.v if isinstance(x, BV) else x
+
+def _eq(a, b, slack=1):
+    """a: the implementation's value; b: the expected value (a BV in a general-float case)"""
+    if not isinstance(b, BV): return a == b
+    return mag(a - b.v) <= slack * GAMMA * b.b
+
+def _same_fn(p, q, bounds):
+    """two answers of the implementation that the law equates; bounds: the expected coefficient list (BV) of either"""
     n = max(len(p), len(q))
-    return all(_eq((p[i] if i < len(p) else 0), (q[i] if i < len(q) else 0)) for i in range(n))
+    z = lambda l, i: (l[i] if i < len(l) else 0)
+    if not _APPROX: return all(z(p, i) == z(q, i) for i in range(n))
+    return all(mag(z(p, i) - z(q, i)) <= 2 * GAMMA * (bounds[i].b if i < len(bounds) else 0) for i in range(n))
 
 def _show(p):
     return "[" + ", ".join(str(a) for a in p) + "]" if isinstance(p, list) else str(p)
@@ -147,11 +178,18 @@ def _exp_scalar(name, got, exp):
     if not _eq(got, exp): return "%s = %s, expected %s" % (name, got, exp)
     return None
 
+def _ex(elt, a):
+    v = exact(elt, a)
+    return BV.of(v) if _APPROX else v
+
+def _z(elt):
+    return BV.of(zero_of(elt)) if _APPROX else zero_of(elt)
+
 def oracle_ring(elt, vals, st):
     p, q, x, s = vals
-    P, Q = [exact(elt, a) for a in p], [exact(elt, a) for a in q]
-    X, S = exact(elt, x), exact(elt, s)
-    z = zero_of(elt)
+    P, Q = [_ex(elt, a) for a in p], [_ex(elt, a) for a in q]
+    X, S = _ex(elt, x), _ex(elt, s)
+    z = _z(elt)
     names = ["p+q", "p-q", "p*q", "-p", "p*s", "q+p", "q-p", "q*p"]
     exp = [ref_add(P, Q), ref_sub(P, Q), ref_mul(P, Q, z), ref_neg(P), ref_scale(P, S), ref_add(Q, P), ref_sub(Q, P), ref_mul(Q, P, z)]
     got = []
@@ -168,23 +206,26 @@ def oracle_ring(elt, vals, st):
         want = ref_eval(e, X, z)
         if want is None:
             # eval of the empty polynomial: a panic (as pinned) or the value zero are both compatible with the property
-            if v != 'P' and not (v == z): return "eval of the empty polynomial %s returned %s" % (nm, v)
+            if v != 'P' and not (v == _val(z)): return "eval of the empty polynomial %s returned %s" % (nm, v)
             continue
         m = _exp_scalar("eval(%s) at x=%s" % (nm, X), v, want)
         if m: return m
     # the laws on the implementation's own values (value of a result = same combination of the operands' values)
     if P and Q:
         vp, vq = ev[0], ev[1]
-        laws = [("p+q", ev[2], vp + vq), ("p-q", ev[3], vp - vq), ("p*q", ev[4], vp * vq), ("-p", ev[5], -vp), ("p*s", ev[6], vp * S)]
-        for nm, a, b in laws:
-            if not _eq(a, b): return "eval(%s)(x) = %s but the same combination of eval(p)(x)=%s, eval(q)(x)=%s gives %s" % (nm, a, vp, vq, b)
+        wants = [ref_eval(e, X, z) for e in exp[:5]]
+        laws = [("p+q", ev[2], vp + vq), ("p-q", ev[3], vp - vq), ("p*q", ev[4], vp * vq), ("-p", ev[5], -vp), ("p*s", ev[6], vp * _val(S))]
+        for (nm, a, b), w in zip(laws, wants):
+            # both sides are within GAMMA*bound of the exact value w (the product of two such values within 3x)
+            ok = (a == b) if not _APPROX else mag(a - b) <= 4 * GAMMA * w.b
+            if not ok: return "eval(%s)(x) = %s but the same combination of eval(p)(x)=%s, eval(q)(x)=%s gives %s" % (nm, a, vp, vq, b)
     return None
 
 def oracle_calc(elt, vals, st):
     p, q, x, s, nmax = vals
-    P, Q = [exact(elt, a) for a in p], [exact(elt, a) for a in q]
-    X, S = exact(elt, x), exact(elt, s)
-    z = zero_of(elt)
+    P, Q = [_ex(elt, a) for a in p], [_ex(elt, a) for a in q]
+    X, S = _ex(elt, x), _ex(elt, s)
+    z = _z(elt)
     for n in range(nmax + 1):
         d = st.poly_or_panic(); v = st.scalar_or_panic()
         want = ref_deriv_n(P, n)
@@ -194,7 +235,7 @@ def oracle_calc(elt, vals, st):
         if m: return m
         wv = ref_eval(want, X, z)
         if wv is None:
-            if v != 'P' and not (v == z): return "derivative_at(p, x, %d) of order degree+1 returned %s (neither a panic nor zero)" % (n, v)
+            if v != 'P' and not (v == _val(z)): return "derivative_at(p, x, %d) of order degree+1 returned %s (neither a panic nor zero)" % (n, v)
             continue
         m = _exp_scalar("derivative_at(p, %s, %d)" % (X, n), v, wv)
         if m: return m
@@ -206,6 +247,7 @@ def oracle_calc(elt, vals, st):
              ("p'*q+p*q'", opt(lambda a, b: ref_add(ref_mul(a, Q, z), ref_mul(P, b, z)), dP, dQ)),
              ("(p*s)'", ref_deriv(ref_scale(P, S))), ("p'*s", opt(ref_scale, dP, S))]
     got = {}
+    wants = dict(items)
     for nm, want in items:
         r = st.poly_or_panic()
         got[nm] = r
@@ -214,7 +256,7 @@ def oracle_calc(elt, vals, st):
         if m: return m
     for a, b, law in (("(p+q)'", "p'+q'", "linearity (sum)"), ("(p*q)'", "p'*q+p*q'", "product rule"), ("(p*s)'", "p'*s", "linearity (scalar)")):
         if P and Q and got[a] != 'P' and got[b] != 'P':
-            if not _same_fn(got[a], got[b]):
+            if not _same_fn(got[a], got[b], wants[b] if wants[b] is not None else []):
                 return "%s fails: %s = %s but %s = %s" % (law, a, _show(got[a]), b, _show(got[b]))
     return None
 
@@ -246,22 +288,11 @@ def oracle_ctor(elt, vals, st):
     if st.int() != -1: return "degree() of the empty polynomial is not an error"
     return None
 
-def _scale(elt, kind, vals):
-    """a crude bound on every intermediate magnitude of a ring/calc case (general-float cases only)"""
-    import math
-    p, q, x, s = vals[0], vals[1], vals[2], vals[3]
-    cp = max([float(mag(exact(elt, a))) for a in p] + [1.0]); cq = max([float(mag(exact(elt, a))) for a in q] + [1.0])
-    ax = max(1.0, 2 * float(mag(exact(elt, x)))); asc = 1.0 + float(mag(exact(elt, s)))
-    n = len(p) + len(q) + 2
-    return cp * cq * asc * n * n * ax ** n * math.factorial(len(p) + 1)
-
 def oracle(case, items):
-    global _TOL
+    global _APPROX
     kind, vals = case_vals(case)
     st = Stream(case.elt, items)
-    _TOL = None
-    if case.meta.get("approx"):
-        _TOL = Fraction(_scale(case.elt, kind, vals)) / 10 ** 9
+    _APPROX = bool(case.meta.get("approx"))
     try:
         f = {"ring": oracle_ring, "calc": oracle_calc, "access": oracle_access, "ctor": oracle_ctor}[kind]
         m = f(case.elt, vals, st)
